@@ -2,8 +2,7 @@
 
 PARTIAL.  What is proof (Coq, Properties/C09.v): permutation invariance of every inventoried order-relevant
 set-iteration site (full since the fix of F09a), soundness of the diff decision (full for *.py files since
-the fix of F09b/F09f; whole trees: F09g open), agreement of the force path with the temp-dir path and the rerun corollary (refuted:
-F09c/d; F09e fixed with F07a).  What is NOT a theorem and is only a differential oracle here: byte-level determinism of the whole
+the fix of F09b/F09f; whole trees: F09g open), agreement of the force path with the temp-dir path and the rerun corollary (full since the fixes of F09c/F09d/F09e).  What is NOT a theorem and is only a differential oracle here: byte-level determinism of the whole
 generator across PYTHONHASHSEED values, fresh/warm processes and output roots (sha256 of every file), and
 the end-to-end `generate; generate(no force)` / existing-tree-differs runs.
 
@@ -740,7 +739,8 @@ def c_diff_case(c: dict) -> str:
 
 # =====================================================================================================
 # stream e2e: force run, mutate the existing tree, non-force rerun must fail
-E2E_MUTATIONS = ["modify_py", "delete_py", "stale_py", "crlf", "strip_final_nl", "nonpy_change", "nonpy_delete", "none"]
+E2E_MUTATIONS = ["modify_py", "delete_py", "stale_py", "crlf", "strip_final_nl", "nonpy_change", "nonpy_delete", "none",
+                 "recreate_shuffled", "registry_garbage"]
 
 
 def read_tree(root: Path, sub: Path) -> dict[str, str]:
@@ -764,7 +764,9 @@ def run_e2e_case(inp: dict) -> dict:
         pristine = read_tree(root, out)
         small_py = sorted(k for k, v in pristine.items() if k.endswith(".py") and "\n" in v and len(v) < 2500
                           and "/core/" not in "/" + k)
-        nonpy = sorted(k for k in pristine if not k.endswith(".py"))
+        # (the registry is INPUT of the next run since the fix of F09d - it is copied into the temp tree and parsed -, so it
+        #  is mutated only by the dedicated "registry_garbage" case)
+        nonpy = sorted(k for k in pristine if not k.endswith(".py") and not k.endswith(".exception_registry.json"))
         mut = inp["mutation"]
         pick = inp["pick"]
         target = None
@@ -792,6 +794,23 @@ def run_e2e_case(inp: dict) -> dict:
         elif mut == "nonpy_delete":
             target = nonpy[pick % len(nonpy)]
             (out / target).unlink()
+        elif mut == "registry_garbage":
+            target = "core/.exception_registry.json"
+            (out / target).write_text(pristine[target] + "junk")
+        elif mut == "recreate_shuffled":
+            # same bytes, but the directory entries are created in a different order (file-system listing order differs
+            # on file systems that list in creation / hash order): the rerun must still succeed and report nothing
+            import random as _r
+            rnd = _r.Random(pick)
+            bak = root / "client_bak"
+            out.rename(bak)
+            files = sorted(p for p in bak.rglob("*") if p.is_file())
+            rnd.shuffle(files)
+            for p in files:
+                dst = out / p.relative_to(bak)
+                dst.parent.mkdir(parents=True, exist_ok=True)
+                dst.write_bytes(p.read_bytes())
+            shutil.rmtree(bak)
         existing = read_tree(root, out)
         before = snapshot(root, with_mtime=True)
         r2 = run_generator(text, root, force=False)
@@ -811,6 +830,7 @@ def run_e2e_case(inp: dict) -> dict:
                           for k, v in t.items())
         return {"input": {"kind": "e2e", **inp}, "target": target,
                 "old": abbr(existing, pristine), "new": abbr(pristine, existing),
+                "modelled": r2.ok or "Differences found" in (r2.error or ""),
                 "obs": {"rerun_ok": r2.ok, "error": norm_err(r2.error, root), "has_diff": not r2.ok,
                         "reported": differing_from_log(r2.log, root)},
                 "oracle_fail": fails}
@@ -1102,7 +1122,7 @@ def main(chk: Check, replay: dict | None = None) -> int:
     mode_cases = [run_mode_case(i) for i in mode_inputs]
     codes = chk.coq_eval(imports, "(gen_input * registry) * (bool * list path)", [c_mode_case(c) for c in mode_cases],
                          "run_modes", tag="modes") if chk.model_ok else None
-    chk.decide(mode_cases, codes, {1: "F09c", 2: "F09d"},
+    chk.decide(mode_cases, codes, {},
                "modes: Diff.tree_force/tree_temp/rerun_differing = (rerun outcome, files reported by the real non-force run)")
     dist["modes"] = {"cases": len(mode_cases), "rerun_failed": sum(1 for c in mode_cases if not c["obs"]["rerun_ok"]),
                      "core_given": sum(1 for c in mode_cases if c["abs"]["core_given"]),
@@ -1116,11 +1136,15 @@ def main(chk: Check, replay: dict | None = None) -> int:
         for m in E2E_MUTATIONS:
             e2e_inputs.append({"spec": s, "mutation": m, "pick": rng.randint(0, 50)})
     e2e_cases = [run_e2e_case(i) for i in e2e_inputs]
+    e2e_other = [c for c in e2e_cases if not c["modelled"]]      # the run failed for another reason than the diff verdict
+    e2e_cases = [c for c in e2e_cases if c["modelled"]]
+    chk.decide(e2e_other, None, {}, "e2e (failure other than 'Differences found': oracle only)")
     codes = chk.coq_eval(imports, "(tree * tree) * bool", [c_e2e_case(c) for c in e2e_cases], "run_diff", tag="e2e") \
         if chk.model_ok else None
     chk.decide(e2e_cases, codes, {1: "F09g"},
                "e2e: Diff.show_diffs(existing, pristine) = the non-force run raised 'Differences found'")
-    dist["e2e"] = {"cases": len(e2e_cases), "by_mutation": {m: sum(1 for c in e2e_cases if c["input"]["mutation"] == m) for m in E2E_MUTATIONS}}
+    e2e_cases = e2e_cases + e2e_other
+    dist["e2e"] = {"cases": len(e2e_cases), "failed_otherwise": [c["obs"]["error"][:60] for c in e2e_other], "by_mutation": {m: sum(1 for c in e2e_cases if c["input"]["mutation"] == m) for m in E2E_MUTATIONS}}
     n_eval += len(e2e_cases)
 
     # ---------------- diff
